@@ -1,12 +1,14 @@
 """C04 — No invalid, forbidden or out-of-limit request ever reaches the driver.
 
-Generated module classes (type() over random parameter/command sets, two class layers so that check_ hooks chain
-along the MRO, Limit parameters, flags, export settings, cfg overrides) on a real SecNode + Dispatcher; request
+Generated module classes (type() over random parameter/command sets, hierarchies of 2-4 classes with plain mixins so that
+check_ hooks and the automatic limit check chain along the MRO, Limit parameters introduced by any class, flags, export
+settings, cfg overrides incl. initial limits) on a real SecNode + Dispatcher; request
 histories with scripted recording drivers.  The datatype layer is an ORACLE for the Lean model: the real datatype
 methods are run here and their results are sent as tables; every decision is taken by the model / the monitors.
 The node generator and the node -> JSON canonicaliser are shared with C06 (props/c06.py imports them).
 
-Streams of one run (all judged by the Lean side): (1) sequential histories (`run_case`); (2) `run_concurrent`: a change racing
+Streams of one run (all judged by the Lean side): (1) sequential histories (`run_case`); (2) `run_concurrent`: a value on its
+way to write_target (by a change request, by a do request whose command forwards to the wrapper, by module code) racing
 a thread that moves the dynamic limit (lock discipline of the wrappers); (3) `run_merging`: 2-3 threads changing / polling /
 writing ONE struct parameter (the value given to the driver is the payload merged into the value cached at that moment);
 (4) `run_shared`: generated histories served to 2-3 connections at once (requests handled one at a time, sequential model
@@ -34,9 +36,17 @@ META = {
                   'payload merged into the value cached at the moment of the call), requests_one_at_a_time, '
                   'change_exactly_validated (for datatypes of the C01 model the driver gets exactly acceptWire dt j (some current); '
                   'the idempotence assumption is discharged by C01 revalidate_unchanged). '
+                  'The chain of check functions is computed by the model from the class layout (chainOf = HasAccessibles.__init_subclass__ '
+                  '156-172 over the classes of the MRO): chain_layout_iff (a value passes it iff every programmer\'s hook before the first '
+                  'that takes over passes and - whenever the automatic limit check applies, C18 AutoApplies - the dynamic limits hold), '
+                  'layout_change_calls_iff, limits_not_switched_off (an inherited hook never switches the limits off), fitting_limits_layout, '
+                  'layout_histories (along every history), merge_clause_needs_no_request_lock (the merge clause rests on accessLock alone), '
+                  'wf_of_wfB (Node.WF is decided by the driver for every generated node). '
                   'The model is tied to dispatcher.py / modulebase.py / params.py by a correspondence run on the real '
                   'dispatcher with recording drivers (sequentially, with 2-3 connections at once under a deterministic scheduler, and as '
-                  'request lines through the real TCPRequestHandler / handler.py), and the Lean monitors judge every implementation exchange.',
+                  'request lines through the real TCPRequestHandler / handler.py) on generated class hierarchies of 2-4 classes with plain '
+                  'mixins (the chain the model computes is also compared with the check_funcs of the real write wrapper), and the Lean '
+                  'monitors judge every implementation exchange.',
     'level_note': 'Trusted: Lean kernel + axioms; for the ten SECoP datatype kinds the value accepted from the wire is recomputed '
                   'by the C01 datatype model (acceptWire) in the Lean judge - change payloads against the cached value, command arguments, '
                   'and under concurrency against the value cached at the moment of the driver call - and the implementation must agree; export_value, '
@@ -55,7 +65,11 @@ META = {
         'call: AccessLock.lean; merge into the current value + call: ChangeSection.lean) are small-step systems tied to the '
         'real code by replaying its events',
         'time stamps and the omit_unchanged_within window (C05)',
-        'Python MRO resolution producing the check_<param> chain (taken from the real class as data)',
+        'the MRO of a generated module class (C3 linearisation) is read from the real class; which class body declares which Limit '
+        'parameter / check_ hook is read from the plain-data spec the classes were generated from (cross-checked against the class '
+        'dicts); classes of shipped configurations (C06) still hand their check chain over as data',
+        'a command function forwarding to write_<p> (the do-request road to the write wrapper) is exercised in the concurrent '
+        'scenario and judged by callWithinLimitsB, it is not part of the sequential model',
     ],
     'assumptions': [
         'wire names of a module are pairwise distinct and predefined names are used for their own kind (Node.WF)',
@@ -337,8 +351,13 @@ def gen_modspec(rng, name, big):
         ll = limit_layer(lp)
         layers[ll]['params'].append(lim)
         above = [i for i in full if i > ll]
-        if above and rng.random() < 0.15:
+        r = rng.random()
+        if above and r < 0.15:
             layers[rng.choice(above)]['params'].append(dict(lim, has_write=False, redeclared=True))
+        elif above and r < 0.23:
+            # a derived class REMOVES the inherited limit parameter (`<p>_max = None`, the way frappy removes an inherited
+            # accessible): the module has no such limit any more
+            layers[rng.choice(above)]['params'].append({'attr': lim['attr'], 'limit': lim['limit'], 'removed': True})
 
     for i in range(nparams):
         attr = names.pop()
@@ -416,10 +435,11 @@ def gen_modspec(rng, name, big):
     # the configuration gives limit parameters their initial value (the usual way limits are set in the field): already
     # the first request meets limits narrower than the range of the datatype
     heads = {p['attr']: p['dt'] for _, p in all_params}
+    removed = {q['attr'] for l in layers for q in l['params'] if q.get('removed')}
     for layer in layers:
         for p in layer['params']:
             dts = heads.get(p.get('limit'))
-            if dts is None or p.get('redeclared') or rng.random() >= 0.3:
+            if dts is None or p.get('redeclared') or p.get('removed') or p['attr'] in removed or rng.random() >= 0.3:
                 continue
 
             def pyval():
@@ -509,6 +529,10 @@ def mk_layer_class(box, clsname, bases, layer, known):
     attrs = {'__module__': 'verifgen'}
     for p in layer['params']:
         a = p['attr']
+        if p.get('removed'):
+            attrs[a] = None          # removes the inherited accessible (HasAccessibles.__init_subclass__)
+            known.pop(a, None)
+            continue
         if p.get('limit'):
             kw = {}
             if p['export'] is not True:
@@ -699,7 +723,8 @@ def class_layout(box, mycls, attr):
     for b in mycls.__mro__:
         lay = box.layerspec.get(b)
         if lay is not None:
-            decl = [any(p['attr'] == attr + '_' + k and p.get('limit') for p in lay['params']) for k in ('min', 'max', 'limits')]
+            decl = [any(p['attr'] == attr + '_' + k and p.get('limit') and not p.get('removed') for p in lay['params'])
+                    for k in ('min', 'max', 'limits')]
             own = any(h['attr'] == attr for h in lay['hooks'])
             # the class body was made from this very spec (self-check of the harness, independent of the code under test:
             # __init_subclass__ may copy accessibles into derived classes and attach the automatic check, it never removes)
@@ -849,7 +874,7 @@ def spec_index(nodespec):
         for layer in ms['layers']:
             for p in layer['params']:
                 a = p['attr']
-                if p.get('redeclared'):
+                if p.get('redeclared') or p.get('removed'):
                     continue
                 if p.get('limit'):
                     base = known.get(p['limit'])
@@ -2175,7 +2200,7 @@ def sig_of(rec, idx, why):
 
 def run(ctx):
     res = Result()
-    res.rule = ('generated nodes (1-3 modules, two class layers, parameters of all datatypes with readonly/constant/export '
+    res.rule = ('generated nodes (1-3 modules, class hierarchies of 2-4 classes incl. plain mixins, parameters of all datatypes with readonly/constant/export '
                 'flags, Limit parameters, check_ hook chains, commands with/without argument/result, cfg overrides) x '
                 'request histories of 10-40 (thorough 10-80) change/do/read requests with scripted drivers; one evaluation '
                 '= one request; non-trivial = a history in which at least one change reached the driver, one was refused '
